@@ -215,7 +215,7 @@ var specKept = pbt.Register(&pbt.Spec[KCase]{
 		}), []int{2, 6, 12, 20}, "steps")
 		return c
 	},
-	Run: RunKept, Quick: 4000, Thorough: 150000, NoRecover: false,
+	Run: RunKept, Quick: 4000, Thorough: 60000, NoRecover: false,
 })
 
 func TestC19Kept(t *testing.T) { pbt.Check(t, specKept) }
